@@ -10,7 +10,9 @@ static CC_Deque *D[NSLOT];
 static CC_DequeIter it;       static int it_slot = -1;
 static CC_DequeZipIter zit;   static int zit_a = -1, zit_b = -1;
 
-static void shim_reset(void) { for (int i = 0; i < NSLOT; i++) D[i] = NULL; it_slot = zit_a = zit_b = -1; }
+static int sparse;           /* obs=sparse on a constructor line: no content sweep except in `observe` */
+static bool sweep_now;
+static void shim_reset(void) { sparse = 0; for (int i = 0; i < NSLOT; i++) D[i] = NULL; it_slot = zit_a = zit_b = -1; }
 static void forget_iters(int k) { if (it_slot == k) it_slot = -1; if (zit_a == k || zit_b == k) zit_a = zit_b = -1; }
 
 static void obs_all(void) { for (int k = 0; k < NSLOT; k++) if (D[k]) obs_deque("d", k, D[k]); }
@@ -21,7 +23,7 @@ static void phys_all(void) {
     if (zit_a >= 0) { o(" zit=%d:%d:%zu:%d", zit_a, zit_b, zit.index, (int)zit.last_removed); any = true; }
     if (!any) { o("-"); return; }
     memmove(obuf + start, obuf + start + 1, olen - start); olen--;   /* drop the leading space */
-    for (int k = 0; k < NSLOT; k++) if (D[k]) walk_deque(D[k]);
+    for (int k = 0; k < NSLOT; k++) if (D[k]) { walk_deque(D[k]); if (sweep_now) walk_deque_api(D[k]); }
 }
 static void o_out(enum cc_stat st, void *out) { o_stat(st); if (st == CC_OK) o(" out=%llu", VAL(out)); }
 
@@ -32,7 +34,10 @@ static void do_op(Cmd *c) {
     void *out = PTR(777777);
     enum cc_stat st;
     if (k < 0 || k >= NSLOT || to < 0 || to >= NSLOT) { o("st=- badslot"); o_sep(); o("-"); return; }
-    if (is_op(c, "new")) {
+    sweep_now = !sparse;
+    if (is_op(c, "observe")) { sweep_now = true; o("st=-");
+    } else if (is_op(c, "new")) {
+        if (!strcmp(kv_str(c, "obs", ""), "sparse")) { sparse = 1; sweep_now = false; }
         if (D[k]) { o("st=- busy"); o_sep(); o("-"); return; }
         CC_DequeConf conf; cc_deque_conf_init(&conf);
         conf.capacity = kv_u64(c, "cap", conf.capacity);
@@ -42,6 +47,7 @@ static void do_op(Cmd *c) {
         D[k] = st == CC_OK ? d : NULL;
         o_stat(st);
     } else if (is_op(c, "new_default")) {
+        if (!strcmp(kv_str(c, "obs", ""), "sparse")) { sparse = 1; sweep_now = false; }
         if (D[k]) { o("st=- busy"); o_sep(); o("-"); return; }
         CC_Deque *d = NULL; st = cc_deque_new(&d); D[k] = st == CC_OK ? d : NULL; o_stat(st);
     } else if (is_op(c, "destroy")) {            /* end of history: release every live object */
@@ -114,5 +120,6 @@ static void do_op(Cmd *c) {
         if (st == CC_OK) D[to] = r;
         o_stat(st); o(" "); o_cb();
     } else { o("st=- badop"); }
-    obs_all(); o_sep(); phys_all();
+    if (sweep_now) obs_all();
+    o_sep(); phys_all();
 }
